@@ -73,6 +73,7 @@ class Interp:
         """cheap feasibility test used to prune forks when loops are unrolled symbolically"""
         s = z3.Solver()
         s.set('timeout', timeout_ms)
+        s.set('arith.nl', False)        # see fork(): linear reasoning only, every 'unsat' stays sound
         for h in self.ctx.assumptions + self.ctx.axioms + st.pc:
             s.add(h)
         return s.check() != z3.unsat
@@ -95,6 +96,10 @@ class Interp:
             for side, f in ((True, t), (False, z3.Not(t))):
                 sv = z3.Solver()
                 sv.set('timeout', 150)
+                # linear reasoning only: z3's nonlinear engine (algebraic numbers) does not poll its timeout and was
+                # seen to spin for minutes on a 150 ms budget; products are then uninterpreted, which keeps every
+                # 'unsat' answer sound and at worst keeps an infeasible side alive
+                sv.set('arith.nl', False)
                 for h in self.ctx.assumptions + self.ctx.axioms + st.pc:
                     sv.add(h)
                 sv.add(f)
